@@ -282,3 +282,10 @@ def Mutator(data: ty.Any, kind: int, val: int) -> int:
     elif kind == 7:
         data.sort()
     return 1
+
+
+@workflow.define(outputs=["out"])
+def CW(a: int, b: int = 7):
+    x = workflow.add(Node(x=a, tag=1), name="x")
+    y = workflow.add(Pair(x=x.out, y=b, tag=2), name="y")
+    return y.out
